@@ -1,3 +1,3 @@
 #!/bin/sh
 # Development aid: run the quick checks (4 at a time) on every delivered behaviour-preserving refactoring; print the ones that raise an alarm.
-ls -d /tmp/seedwork/B*/out/R* | xargs -P 4 -I{} sh -c 'out=$(/verif/tools/try_seed.sh {}/patch.diff quick 2>&1); echo "$(echo {} | sed "s#/tmp/seedwork/##") $(echo "$out" | grep DETECTED-BY)"' | sort
+ls -d /tmp/seedwork/B*/out/R* | xargs -P 12 -I{} sh -c 'out=$(/verif/tools/try_seed.sh {}/patch.diff quick 2>&1); echo "$(echo {} | sed "s#/tmp/seedwork/##") $(echo "$out" | grep DETECTED-BY)"' | sort
